@@ -81,11 +81,17 @@ def _case(draw):
     kind = draw(st.sampled_from(["fp", "fp", "fp", "mass", "rot", "z0"]))
     if kind == "z0":
         n = draw(st.integers(1, 24))
+        half = draw(st.sampled_from([0, 1, 5, 22, 45, 89]))
+        # directions: anywhere on the 1/8-degree lattice, or within two degrees of the places where a window
+        # [k-h, k+1+h) meets north or the quadrant boundaries (the wrap-around logic lives there)
+        edges = [0, 90, 270, 360 - half, half, 360 - half - 1, half + 1, 180]
+        near = st.tuples(st.sampled_from(edges), st.integers(-16, 16)).map(lambda t: ((t[0] * 8 + t[1]) % (8 * 360)) / 8.0)
+        anyw = st.integers(0, 8 * 360 - 1).map(lambda k: k / 8.0)
         obs = []
         for _ in range(n):
             p = draw(_params(allow_types=False))
-            obs.append([p["zm"], p["ws"], draw(st.integers(0, 8 * 360 - 1)) / 8.0, p["ustar"], p["L"]])
-        return {"kind": kind, "obs": obs, "half": draw(st.sampled_from([0, 1, 5, 22, 45, 89])), "rot": draw(st.integers(1, 359))}
+            obs.append([p["zm"], p["ws"], draw(st.one_of(anyw, near, near)), p["ustar"], p["L"]])
+        return {"kind": kind, "obs": obs, "half": half, "rot": draw(st.integers(1, 359))}
     p = draw(_params(allow_types=(kind != "mass")))
     case = {"kind": kind, "p": p}
     zm_, z0_, ws_, us_, L_, sv_ = _values(p)
